@@ -176,8 +176,9 @@ func Handle(c *core.Check, st core.State) {
 				// root cause check: the canary is the content of a variable bound by an
 				// enclosing iterator (child evaluation context), printed by the writer's
 				// "with <var> as <value>" summary
-				if d.EvalContext != nil && d.EvalContext.Parent() != nil {
-					for _, lv := range d.EvalContext.Variables {
+				// (any enclosing iterator: the child contexts between the diagnostic's context and the root)
+				for ectx := d.EvalContext; ectx != nil && ectx.Parent() != nil; ectx = ectx.Parent() {
+					for _, lv := range ectx.Variables {
 						if !lv.IsMarked() && lv.IsKnown() && !lv.IsNull() && lv.Type().IsPrimitiveType() &&
 							strings.Contains(fmt.Sprintf("%#v", lv), cn) {
 							sig = "leak/text-writer/iterator-variable-summary"
